@@ -262,6 +262,8 @@ class MappingStorage:
                     oid=oid, serials=(old_tid, serial), data=data)
 
         self._tdata[oid] = data
+        # never hand out an oid that was stored explicitly (e.g. copied in)
+        self._oid = max(self._oid, ZODB.utils.u64(oid))
 
     checkCurrentSerialInTransaction = (
         ZODB.BaseStorage.checkCurrentSerialInTransaction)
